@@ -37,7 +37,9 @@ CONSTANTS Ids,          \* document ids
           KeepN,        \* numSnapshotsToKeep
           MaxEp, MaxSid,
           WithReader, WithCopy, WithMerger, WithPurge, WithMemMerge,
-          MaxMergeInputs \* bound on the size of one merge task (0 = any)
+          MaxMergeInputs, \* bound on the size of one merge task (0 = any)
+          AsyncRelease   \* TRUE: eligibility for removal is recorded by an asynchronous step (as in the code);
+                         \* FALSE: an epoch is eligible as soon as nobody holds it (most aggressive purging)
 
 VARIABLES batch,        \* b -> [puts, dels]   (collapsed ops of batch b)
           nsub,         \* batches submitted so far
@@ -210,7 +212,7 @@ PAck ==
 \* IndexSnapshot.DecRef reaching zero -> go AddEligibleForRemoval(epoch)
 \* (asynchronous; modelled as an independent step for any epoch nobody holds)
 Release(e) ==
-  /\ e \in 1..(nextEp - 1) /\ e # root.ep /\ e \notin Held /\ e \notin elig
+  /\ AsyncRelease /\ e \in 1..(nextEp - 1) /\ e # root.ep /\ e \notin Held /\ e \notin elig
   /\ elig' = elig \cup {e}
   /\ UNCHANGED <<batch, nsub, intro, segdocs, root, nextEp, nextSid, wst, pend, acked, pPc, pSnap, pAcks, pNew, lastP,
                  mPc, mSnap, mTask, mNew, lastM, bolt, disk, inel, rdr, cPc, cSnap, cSched, cCopied>>
@@ -225,9 +227,10 @@ PWakePurge ==
                  mPc, mSnap, mTask, mNew, lastM, bolt, disk, inel, elig, rdr, cPc, cSnap, cSched, cCopied, dirty>>
 
 \* removeOldBoltSnapshots: eligible epochs that are not among the newest KeepN
+EligNow == IF AsyncRelease THEN elig ELSE { e \in 1..(nextEp - 1) : e # root.ep /\ e \notin Held }
 PPurgeB ==
   /\ pPc = "purgeB"
-  /\ LET rem == { e \in elig : e \notin NewestOf(bolt, KeepN) } IN
+  /\ LET rem == { e \in EligNow : e \notin NewestOf(bolt, KeepN) } IN
      /\ bolt' = [ e \in 1..MaxEp |-> IF e \in rem THEN NoSnap ELSE bolt[e] ]
      /\ elig' = elig \ rem
   /\ pPc' = "purgeZ"
@@ -350,6 +353,10 @@ Durable == /\ LiveDocs(RecSnap) = Replay(RecSnap.k)
            /\ \A b \in acked : \E i \in 1..RecSnap.k : intro[i] = b
 \* the newest snapshot in the metadata store is always loadable (no silent fallback)
 NewestLoads == BoltEps # {} => RecEp = CHOOSE e \in BoltEps : \A x \in BoltEps : x <= e
+
+\* C13: Rollback(e) deletes every snapshot newer than e; reopening then loads e
+RolledBack(e) == [ x \in DOMAIN bolt |-> IF x > e THEN NoSnap ELSE bolt[x] ]
+RollbackOK == \A e \in BoltEps : RecEpOf(RolledBack(e), disk) = e
 
 \* C12: needed files exist
 BoltFilesOnDisk == \A e \in BoltEps : Files(bolt[e]) \subseteq disk
